@@ -288,8 +288,10 @@ def obligations(tier, seed):
                         "opts": {"budget_s": 600, "ctx": {"loop_bound": 1000}},
                         "witness": bs == 7 and n in (2, 3),
                     })
-                if tier != "quick" and n <= 4:
-                    for bs in (2, 3, 5, 8, 13, 21, 34):
+                if (tier != "quick" and n <= 4) or (tier == "quick" and framing == "CRLF" and n == 1):
+                    # the input stream returns fewer bytes than requested at one solver-chosen
+                    # call (sockets do): the result must not depend on it
+                    for bs in ((2, 3, 5, 8, 13, 21, 34) if tier != "quick" else (13, 34)):
                         out.append({
                             "name": f"parser-short-read[{framing},{kind},n={n},buffer_size={bs}]",
                             "body": "body_parser",
